@@ -207,6 +207,10 @@ func genRelatedStrings(c *common.Ctx, fns []fnInfo, emit func(...string)) {
 			if fi.Name == "str:repeat" {
 				args[1] = fmt.Sprint(r.Intn(5))
 			}
+			if fi.Name == "re:replace" && r.Chance(1, 3) {
+				// the replacement as a callback that outputs 0, 1 or 2 values of any kind
+				args[1] = pickKind(r, "fn").Src
+			}
 			if fi.Name == "re:awk" {
 				args[0] = "{|@f| put $f[0] }"
 				args[1] = "[" + q(s) + " " + q(derived(r, s)) + "]"
@@ -324,7 +328,42 @@ func genMarkdown(c *common.Ctx, emit func(...string)) {
 	}
 }
 
+// callbacks whose NUMBER of outputs is what the command checks (re:replace's
+// replacement function, keep-if's predicate, order's &key and &less-than,
+// styled's transformer): every callable of the pool where the callback is
+// certain to be called (a pattern that matches, a non-empty input).
+func genCallbackOutputs(c *common.Ctx, emit func(...string)) {
+	for _, p := range pool {
+		if p.Kind != "fn" {
+			continue
+		}
+		for _, code := range []string{
+			"use re; re:replace b " + p.Src + " abc",
+			"use re; re:replace '' " + p.Src + " é",
+			"use re; re:replace '(?i)B|ñ' " + p.Src + " aBñ",
+			"keep-if " + p.Src + " [a b]",
+			"put é | keep-if " + p.Src,
+			"order &key=" + p.Src + " [b a]",
+			"order &less-than=" + p.Src + " [b a c]",
+			"styled abc " + p.Src,
+			"styled (styled abc red)(styled é bold) " + p.Src,
+			"use re; re:awk " + p.Src + " [a 'b c']",
+			"each " + p.Src + " é",
+			"peach " + p.Src + " [a é]",
+		} {
+			if strings.Contains(code, "file:") {
+				code = "use file; " + code
+			}
+			if strings.Contains(code, "str:") {
+				code = "use str; " + code
+			}
+			emit("form", "callback-outputs", common.Hex(code))
+		}
+	}
+}
+
 func genRelated(c *common.Ctx, fns []fnInfo, emit func(...string)) {
+	genCallbackOutputs(c, emit)
 	genDocFindCalls(c, emit)
 	genRelatedStrings(c, fns, emit)
 	genRelatedContainers(c, fns, emit)
